@@ -24,6 +24,11 @@ type c20Scenario struct {
 	Values   []int `json:"value_rotation"` // per file: offset into the value alphabet
 	EditFile int   `json:"unsaved_edit_in"`
 	OpenAll  bool  `json:"all_open"`
+	// Extra include directives (from, to) on top of the tree: a file reachable along two paths
+	Extra [][2]int `json:"extra_includes,omitempty"`
+	// Discard: the file with the unsaved edit was opened with its disk text,
+	// changed, looked at once and closed again without saving before the sweep
+	Discard bool `json:"edit_discarded,omitempty"`
 }
 
 // value alphabet: spelling, exact value, negative
@@ -61,6 +66,11 @@ func (sc c20Scenario) journal(f, variant int) *gmodel.Journal {
 	for k := 1; k < sc.N; k++ {
 		if sc.Parent[k] == f {
 			j.Entries = append(j.Entries, gmodel.Entry{Kind: gmodel.EntryInclude, Path: c09Files[k]})
+		}
+	}
+	for _, e := range sc.Extra {
+		if e[0] == f {
+			j.Entries = append(j.Entries, gmodel.Entry{Kind: gmodel.EntryInclude, Path: c09Files[e[1]]})
 		}
 	}
 	r := sc.Values[f]
@@ -186,6 +196,12 @@ func (sc c20Scenario) features(from int) string {
 		} else {
 			f += ", unsaved edit in another open file"
 		}
+		if sc.Discard {
+			f += " (closed again without saving)"
+		}
+	}
+	if len(sc.Extra) > 0 {
+		f += ", a file included along two paths"
 	}
 	return f
 }
@@ -210,13 +226,26 @@ func c20Run(c *core.Ctx, dir string, sc c20Scenario, only *c20Case) {
 	}
 	uriOf := func(f int) string { return wire.URI(filepath.Join(dir, c09Files[f])) }
 	below := func(req, x int) bool {
-		for y := x; y > 0; {
-			y = sc.Parent[y]
-			if y == req {
-				return true
+		// x is reachable from req through include directives (tree and extra edges)
+		seen := map[int]bool{req: true}
+		queue := []int{req}
+		for len(queue) > 0 {
+			y := queue[0]
+			queue = queue[1:]
+			for k := 1; k < sc.N; k++ {
+				if sc.Parent[k] == y && !seen[k] {
+					seen[k] = true
+					queue = append(queue, k)
+				}
+			}
+			for _, e := range sc.Extra {
+				if e[0] == y && !seen[e[1]] {
+					seen[e[1]] = true
+					queue = append(queue, e[1])
+				}
 			}
 		}
-		return false
+		return x != req && seen[x]
 	}
 	for from := 0; from < sc.N; from++ {
 		if only != nil && only.From != from {
@@ -231,8 +260,27 @@ func c20Run(c *core.Ctx, dir string, sc c20Scenario, only *c20Case) {
 		s.Initialized()
 		wasOpen := open[from]
 		open[from] = true
+		kept := false
+		if sc.Discard && sc.EditFile >= 0 && sc.EditFile != from {
+			// history: the edited file is opened with its disk text, changed, looked at from the hovered file, and closed unsaved
+			ef := sc.EditFile
+			s.DidOpen(uriOf(from), cur[from].Render().Text)
+			s.DidOpen(uriOf(ef), disk[ef].Render().Text)
+			s.DidChangeFull(uriOf(ef), cur[ef].Render().Text, 2)
+			s.Call("textDocument/hover", wire.DocPos(uriOf(from), 0, 0))
+			for _, sp := range cur[from].Render().Spans {
+				if sp.Kind == "account" {
+					s.Call("textDocument/hover", wire.DocPos(uriOf(from), sp.Line, sp.U0))
+					break
+				}
+			}
+			s.DidClose(uriOf(ef))
+			cur[ef] = disk[ef]
+			open[ef] = false
+			kept = true // the hovered document stays open: it is not analysed again
+		}
 		for f := 0; f < sc.N; f++ {
-			if open[f] {
+			if open[f] && !(kept && f == from) {
 				s.DidOpen(uriOf(f), cur[f].Render().Text)
 			}
 		}
@@ -452,7 +500,7 @@ func checkC20(c *core.Ctx) {
 	if c.Thorough() {
 		maxN = 4
 	}
-	c.Bound("workspaces", fmt.Sprintf("1..%d files, every include tree; three accounts, two commodities, payee with and without note, tags and tag values repeated across files; %d value spellings incl. 12 decimals, grouped, exponent; rotation of values per file", maxN, len(c20Values)))
+	c.Bound("workspaces", fmt.Sprintf("1..%d files, every include tree; three accounts, two commodities, payee with and without note, tags and tag values repeated across files; %d value spellings incl. 12 decimals, grouped, exponent; rotation of values per file; 3 graphs in which a file is included along two paths; unsaved edits also discarded (file closed again) before the sweep", maxN, len(c20Values)))
 	sampled := 0
 	for n := 1; n <= maxN; n++ {
 		for _, tree := range c09Trees(n) {
@@ -476,6 +524,11 @@ func checkC20(c *core.Ctx) {
 							}
 							sc := c20Scenario{N: n, Parent: tree, Root: root, Values: vals, EditFile: ef, OpenAll: openAll}
 							c20Run(c, dir, sc, nil)
+							if ef >= 0 && n >= 2 && rot < 2 {
+								dsc := sc
+								dsc.Discard = true
+								c20Run(c, dir, dsc, nil)
+							}
 							if sampled < 2 && n == 3 && ef == 1 {
 								sampled++
 								c.Sample(map[string]any{"scenario": sc, "b.journal": sc.journal(1, 1).Render().Text})
@@ -486,6 +539,30 @@ func checkC20(c *core.Ctx) {
 			}
 			if c.Expired() {
 				return
+			}
+		}
+	}
+	// a file reachable along two include paths is counted once
+	diamonds := []c20Scenario{
+		{N: 3, Parent: []int{-1, 0, 1}, Extra: [][2]int{{0, 2}}},
+		{N: 4, Parent: []int{-1, 0, 0, 1}, Extra: [][2]int{{2, 3}}},
+		{N: 4, Parent: []int{-1, 0, 1, 2}, Extra: [][2]int{{0, 3}, {1, 3}}},
+	}
+	for _, d := range diamonds {
+		for rot := 0; rot < 3; rot++ {
+			for _, root := range []bool{false, true} {
+				for ef := -1; ef < d.N; ef++ {
+					if !c.Mine() {
+						continue
+					}
+					sc := d
+					sc.Root, sc.EditFile = root, ef
+					sc.Values = make([]int, d.N)
+					for f := range sc.Values {
+						sc.Values[f] = rot + 3*f
+					}
+					c20Run(c, dir, sc, nil)
+				}
 			}
 		}
 	}
